@@ -4,6 +4,7 @@ package main
 
 import (
 	"fmt"
+	"os"
 	"go/constant"
 	"go/token"
 	"go/types"
@@ -440,6 +441,16 @@ func (x *Exec) writePtr(st *State, p PtrVal, nv Val) {
 	if p.Obj.Global != nil {
 		x.fail("store to package-level variable %s", p.Obj.Name)
 	}
+	if os.Getenv("GOVC_DEBUG") != "" && strings.Contains(p.Obj.T.String(), "strings.Builder") {
+		fmt.Fprintf(os.Stderr, "writePtr builder: path=%d nv=%T\n", len(p.Path), nv)
+	}
+	if len(p.Path) == 0 && strings.Contains(p.Obj.T.String(), "strings.Builder") {
+		if _, isStruct := nv.(StructVal); isStruct {
+			// the zero strings.Builder: an empty byte sequence
+			st.Cells[p.Obj] = x.zeroVal(types.NewSlice(typByte))
+			return
+		}
+	}
 	st.Cells[p.Obj] = x.update(x.cell(st, p.Obj), p.Path, nv)
 }
 
@@ -714,7 +725,11 @@ func (x *Exec) step(st *State, ins ssa.Instruction) {
 			return
 		}
 		obj := x.newObject("local:"+t.Name(), et)
-		st.Cells[obj] = x.zeroVal(et)
+		if strings.Contains(et.String(), "strings.Builder") {
+			st.Cells[obj] = x.zeroVal(types.NewSlice(typByte)) // the zero Builder: an empty byte sequence
+		} else {
+			st.Cells[obj] = x.zeroVal(et)
+		}
 		st.Regs[t] = PtrVal{Nil: o.False(), Obj: obj}
 	case *ssa.Store:
 		p := x.operand(st, t.Addr).(PtrVal)
